@@ -18,12 +18,13 @@ MODES = [("Normal", ()), ("Opt1", ("-O",)), ("Opt2", ("-OO",))]
 ENVS = [("Unset", None), ("Empty", ""), ('(NonEmpty "1")', "1"), ('(NonEmpty "0")', "0"), ('(NonEmpty "false")', "false")]
 ENABLED = [("default", "EDefault"), ("true", "ETrue"), ("false", "EFalse"), ("slow", "ESlow")]
 DECOS = [("require", "KRequire"), ("ensure", "KEnsure"), ("snapshot", "KSnapshot"), ("invariant", "KInvariant")]
-FKINDS = ["function", "async", "lambda", "defaults", "checker"]
+FKINDS = ["function", "async", "lambda", "defaults", "checker", "staticmethod_obj"]
 CKINDS = ["plain", "dbc", "slots_repr"]
 
 RULE = ("part 1: the full product interpreter mode {normal,-O,-OO} x ICONTRACT_SLOW {unset,'', '1','0','false'} x "
         "decorator {require,ensure,snapshot,invariant} x enabled {default,True,False,icontract.SLOW} x callable kind "
-        "(function, coroutine function, lambda, function with defaults/*args/**kwargs, an existing checker; plain class, "
+        "(function, coroutine function, lambda, function with defaults/*args/**kwargs, an existing checker, a staticmethod "
+        "object - the contract written above @staticmethod; plain class, "
         "DBC class, class with __repr__ and a property), one subprocess per (mode, environment); non-trivial = the row "
         "is disabled in that configuration or enabled under -O/-OO.  part 2: generated checker-cluster programs (see C01) "
         "rendered with enabled=True spelled out and run under normal, -O and -OO; the complete observation (events, "
